@@ -153,7 +153,7 @@ class DilutionPlan:
         self.instructions = instructions
         self.vmax: numpy.ndarray = vmax_arr
         self.v_stock = numpy.sum([v for _, dsteps, src, v in instructions if dsteps == 0])
-        self.v_diluent = numpy.sum(R * vmax_arr) - self.v_stock
+        self.v_diluent = numpy.sum(R * vmax_arr.astype(float)) - self.v_stock
         self.max_steps = max([dsteps for _, dsteps, _, _ in instructions])
 
     def __repr__(self) -> str:
